@@ -2,6 +2,8 @@
 package c12
 
 import (
+	"github.com/sdcio/data-server/pkg/config"
+	schemaClient "github.com/sdcio/data-server/pkg/datastore/clients/schema"
 	"context"
 	"encoding/base64"
 	"encoding/json"
@@ -32,6 +34,8 @@ type Case struct {
 	Vals2 []string `json:"vals2,omitempty"` // second value (equality law)
 	In   string   `json:"in"`   // typed | string | json | json_ietf | xml | gnmi | gnmi-ascii
 	Mode string   `json:"mode"` // pure | pipeline | equal
+	// GNMI (pipeline mode): the change also goes through the real gnmiTarget in this encoding to an in-process gNMI device
+	GNMI string   `json:"gnmi,omitempty"`
 	Pad  bool     `json:"pad,omitempty"` // non-canonical lexical form: decimal64 with trailing zeros, integers with a leading zero
 }
 
@@ -147,6 +151,9 @@ func gen(t *rapid.T) *Case {
 		}
 	}
 	c.Pad = rapid.Bool().Draw(t, "pad")
+	if c.Mode == "pipeline" && rapid.Bool().Draw(t, "gnmi-device") {
+		c.GNMI = rapid.SampledFrom([]string{"proto", "json", "json_ietf"}).Draw(t, "gnmi-encoding")
+	}
 	if n.Type == "empty" && c.In == "string" {
 		c.In = "typed"
 	}
@@ -155,7 +162,7 @@ func gen(t *rapid.T) *Case {
 
 var prop = vlib.Prop[*Case]{
 	ID: "C12",
-	Rule: "case = (leaf or leaf-list of every YANG built-in type under /types) x (abstract value: boundaries of the type - min/max, 2^63, 2^64-1, negative and fractional decimal64 at fraction-digits 1/3/18, empty string, every enum/identity/union member - or a rapid-drawn interior value; leaf-lists of 1..3) x input form (typed, string, JSON, JSON_IETF through TransactionSet; XML text through utils.Convert; gNMI typed value through FromGNMITypedValue) x mode; " +
+	Rule: "case = (leaf or leaf-list of every YANG built-in type under /types) x (abstract value: boundaries of the type - min/max, 2^63, 2^64-1, negative and fractional decimal64 at fraction-digits 1/3/18, empty string, every enum/identity/union member - or a rapid-drawn interior value; leaf-lists of 1..3) x input form (typed, string, JSON, JSON_IETF through TransactionSet; XML text through utils.Convert; gNMI typed value through FromGNMITypedValue) x mode (half of the pipeline cases additionally deliver the change through the real gnmiTarget - proto, JSON or JSON_IETF - to an in-process gNMI device that decodes the SetRequest); " +
 		"oracle = round trip through an independent denotation: pure mode calls the conversion functions directly (ConvertTypedValueToYANGType, Convert, TypedValueToYANGType, TypedValueToString, ToGNMITypedValue, GetJsonValue, TypedValueToXML) and decodes every output; pipeline mode sends one TransactionSet and decodes what the recording device receives as proto, JSON, JSON_IETF and XML plus the stored bytes; equal mode checks EqualTypedValues(tv1,tv2) <=> a1 == a2 on values produced by the code's own converters from (possibly different) lexical forms; " +
 		"non-trivial = boundary value, union member other than the first, leaf-list with >=2 elements, or input form different from the output form; distinct = distinct case JSON",
 	Gen:  gen,
@@ -585,11 +592,28 @@ func execPipeline(ctx context.Context, n *vlib.Node, c *Case) *vlib.Failure {
 	env := vlib.MustEnv()
 	want := den(n, c.Vals)
 	hc := &vlib.HistCase{Universe: "plain", Palette: []string{"a", "b", "c"}}
-	h, err := vlib.NewHistEnv(ctx, env, hc, vlib.HistEnvOpts{})
+	var tee *vlib.GNMITee
+	opts := vlib.HistEnvOpts{}
+	if c.GNMI != "" {
+		opts.WrapTarget = func(dev *vlib.Device) target.Target {
+			gdev := vlib.NewGNMIDevice(dev.Snapshot())
+			scb := schemaClient.NewSchemaClientBound(vlib.SchemaRef(), env.SchemaClient)
+			real, err := target.New(ctx, "c12", &config.SBI{Type: "gnmi", Address: "bufnet", Port: 1, GnmiOptions: &config.SBIGnmiOptions{Encoding: c.GNMI}}, scb, gdev.DialOpts()...)
+			if err != nil {
+				harnessErr(err)
+			}
+			tee = &vlib.GNMITee{Dev: dev, Real: real, GDev: gdev}
+			return tee
+		}
+	}
+	h, err := vlib.NewHistEnv(ctx, env, hc, opts)
 	if err != nil {
 		harnessErr(err)
 	}
 	defer h.DS.Stop()
+	if tee != nil {
+		defer tee.GDev.Stop()
+	}
 	path := vlib.P("types", n.Name)
 	lv := make([]string, len(c.Vals))
 	for i, v := range c.Vals {
@@ -675,6 +699,32 @@ func execPipeline(ctx context.Context, n *vlib.Node, c *Case) *vlib.Failure {
 			return vlib.Failf(sig("pipeline-device-xml", n, c), "leaf %s = %q (form %s): XML (%s) %s decodes to %q anomalies=%v", n.Name, want, c.In, o, rend.XML[o], ch.Updates[path.Canon()], ch.Anomalies)
 		}
 	}
+	if tee != nil {
+		// the value as the real gnmiTarget delivered it (typed value / JSON inside a SetRequest) to the gNMI device
+		if errs := tee.TakeErrs(); len(errs) > 0 {
+			return vlib.Failf(sig("pipeline-gnmi-"+c.GNMI+"-set-error", n, c), "leaf %s = %q: gnmiTarget.Set failed: %v", n.Name, want, errs)
+		}
+		rec := tee.GDev.LastRecord()
+		got, ok := tee.GDev.Snapshot()[path.Canon()]
+		noValue := false
+		if rec != nil {
+			for _, a := range rec.Anomalies {
+				if strings.Contains(a, "without a value") {
+					noValue = true
+				}
+			}
+		}
+		switch {
+		case noValue && c.GNMI == "proto":
+			// no gNMI typed value for the type: the root cause ToGNMITypedValue shows in the pure mode
+			k := "out-gnmi"
+			return vlib.Failf(sig(k, n, c), "leaf %s = %q: the SetRequest of the real gnmiTarget (proto) carries the update without a value: %v", n.Name, want, rec.Anomalies)
+		case rec != nil && len(rec.Anomalies) > 0:
+			return vlib.Failf(sig("pipeline-gnmi-"+c.GNMI, n, c), "leaf %s = %q (form %s): SetRequest anomalies: %v", n.Name, want, c.In, rec.Anomalies)
+		case !ok || got != want:
+			return vlib.Failf(sig("pipeline-gnmi-"+c.GNMI, n, c), "leaf %s = %q (form %s): the gNMI device holds %q (present=%v) after the SetRequest %s", n.Name, want, c.In, got, ok, vlib.JSON(rec))
+		}
+	}
 	dump, err := vlib.DumpIntended(ctx, env.Cache, h.DSName)
 	if err != nil {
 		return vlib.Failf(sig("pipeline-store", n, c), "dump: %v", err)
@@ -701,6 +751,9 @@ func Exec(c *Case) (bool, []string, *vlib.Failure) {
 		harnessErr(fmt.Errorf("bad case %+v", c))
 	}
 	lab := []string{"mode-" + c.Mode, "in-" + c.In, "type-" + typeClass(n)}
+	if c.GNMI != "" && c.Mode == "pipeline" {
+		lab = append(lab, "real-gnmi-target-"+c.GNMI)
+	}
 	var f *vlib.Failure
 	switch c.Mode {
 	case "pure":
